@@ -355,6 +355,7 @@ func c14CallSite(c *core.Ctx) (uint64, ssa.Instruction) {
 	wargs := core.CallArgs(wr)
 	c.Check("R3", "callsite-written", wr.Pos(), len(wargs) == 2 && wargs[0] == buf && core.InstrDominates(encCall, wr),
 		"the encoded buffer (whole) is what is written to the socket, after Encode")
+	linkPassThrough(c, "R3")
 	// destination addr: &net.UDPAddr{IP: hc.PeerAddr, Port: int(hc.Port)}
 	if len(wargs) == 2 {
 		okIP, okPort := false, false
@@ -389,4 +390,32 @@ func c14CallSite(c *core.Ctx) (uint64, ssa.Instruction) {
 	}
 	_ = token.NoPos
 	return flags, fn.Blocks[0].Instrs[0]
+}
+
+// linkPassThrough: Gtp5gLink.WriteTo hands exactly the bytes and the address it was given to the socket
+// (it is the last hop of every re-injected packet; a re-sliced or substituted buffer changes the datagram
+// although the encoder was right).
+func linkPassThrough(c *core.Ctx, rule string) {
+	fn := fnOf(c, rule, pkgFwd, "Gtp5gLink", "WriteTo")
+	if fn == nil {
+		return
+	}
+	n := 0
+	core.Instrs(fn, func(in ssa.Instruction) {
+		ci, ok := in.(ssa.CallInstruction)
+		if !ok {
+			return
+		}
+		f := core.Callee(ci)
+		if f == nil || f.Name() != "WriteTo" {
+			return
+		}
+		n++
+		args := core.CallArgs(ci)
+		c.Check(rule, "link-writes-what-it-got", ci.Pos(), len(args) == 2 && args[0] == ssa.Value(core.Param(fn, 0)) && args[1] == ssa.Value(core.Param(fn, 1)),
+			"the socket write of Gtp5gLink.WriteTo is given the caller's buffer and address unchanged")
+		all, _ := dominatesReturns(in)
+		c.Check(rule, "link-always-writes", ci.Pos(), all, "every call of Gtp5gLink.WriteTo reaches the socket write")
+	})
+	c.Check(rule, "link-write-once", fn.Pos(), n == 1, fmt.Sprintf("%d socket writes in Gtp5gLink.WriteTo (want 1)", n))
 }
